@@ -11,6 +11,8 @@ def check(model, R, tier):
     E.check_once(model, R, 'C17', B)
     E.check_visited_is_set(model, R, 'C17', B)
     E.check_nohistory(model, R, 'C17', ops)
+    from sa import rules_hygiene as _H
+    _H.check_result_name(model, R, 'C17', ops)
     E.check_release_predicate(model, R, 'C17', B)
     return dict(
         explanation='Decides: no function on the call graph of Tensor.backward is recursive (depth is not bounded by the interpreter stack); each recorded op is invoked once from one '
